@@ -35,9 +35,10 @@ fn first_diff(a: &[u8], b: &[u8]) -> Option<usize> {
 }
 
 fn in_rect(g: &Geo, i: usize) -> bool {
-    if g.stride == 0 || g.w == 0 || g.h == 0 {
+    if g.stride == 0 || g.w == 0 || g.h == 0 || i < g.off {
         return false;
     }
+    let i = i - g.off;
     let p = i / g.px;
     let y = p / g.stride;
     let x = p % g.stride;
@@ -45,6 +46,10 @@ fn in_rect(g: &Geo, i: usize) -> bool {
 }
 
 fn describe_offset(g: &Geo, i: usize) -> String {
+    if i < g.off {
+        return format!("byte {} of the {}-byte prefix in front of the (deliberately misaligned) image", i, g.off);
+    }
+    let i = i - g.off;
     let p = i / g.px;
     let y = p / g.stride.max(1);
     let x = p % g.stride.max(1);
@@ -277,9 +282,10 @@ pub fn check_c05(scn: &Scenario, runs: &[ExecResult]) -> Vec<Violation> {
                         // untouched expected inside the rectangle too
                         match &orig {
                             Some(o) => {
-                                let p = i / g.px;
+                                let j = i - g.off;
+                                let p = j / g.px;
                                 let (x, y) = (p % g.stride - g.ox as usize, p / g.stride - g.oy as usize);
-                                let v = o[y * row_len + x * g.px + i % g.px];
+                                let v = o[y * row_len + x * g.px + j % g.px];
                                 (v, v)
                             }
                             None => (sa[i], sb[i]),
@@ -364,7 +370,7 @@ fn logical_of(o: &OpOut) -> Vec<u8> {
     let g = o.dst_geo.unwrap();
     let mut v = Vec::with_capacity(g.w as usize * g.h as usize * g.px);
     for y in 0..g.h as usize {
-        let start = ((g.oy as usize + y) * g.stride + g.ox as usize) * g.px;
+        let start = ((g.oy as usize + y) * g.stride + g.ox as usize) * g.px + g.off;
         v.extend_from_slice(&o.dst[start..start + g.w as usize * g.px]);
     }
     v
